@@ -195,6 +195,11 @@ func (w *World) Resolve(h *sdl.Instance, pt *sdl.Point) *Resolution {
 	if pt.Sel == sdl.SelType && (pt.Kind == sdl.KAny || pt.Kind == sdl.KAnys) && len(pt.Quals) == 0 {
 		r.Foreign = true
 	}
+	if pt.Kind == sdl.KApp {
+		// the application component itself: always there, never one of the program's components
+		r.Foreign, r.Cands, r.Tied = true, nil, true
+		return r
+	}
 	withSelf := cands
 	var others []string
 	for _, id := range cands {
